@@ -26,6 +26,7 @@ EXPLANATION = (
     "Later rounds added: "
     "(SHAREDFN) trial-function wrappers and objectives keep no per-trial state they read "
     "back. "
+    'Round 7: (FAILSKIP) no path of _maybe_report_result reaches the report to the sampling library with an infinite score - boolean path analysis over the atoms of its branch conditions; (DRAWN) no item-dropping wrapper between the trial generators and the assessment loop. '
 )
 ASSUMPTIONS = (
     "single dict/list operations are atomic; trial functions run on workers and "
